@@ -4,6 +4,7 @@ import (
 	"encoding/json"
 	"flag"
 	"fmt"
+	neatmath "github.com/yaricom/goNEAT/v4/neat/math"
 	"math"
 	"sort"
 
@@ -141,16 +142,32 @@ func checkSeries(st *seriesStats, scale, off float64, c *checker) int {
 	return 11
 }
 
+// complexityGenome builds a genome whose EXPRESSED network has the given complexity (nodes + links, control nodes and their
+// links included): plain for odd or small values, with one enabled module (a control node with one input and one output link)
+// for even values from 6 on - champions may be modular.
 func complexityGenome(cplx int) *genetics.Genome {
 	tr := neat.NewTrait()
 	tr.Id = 1
 	in := network.NewNNode(1, network.InputNeuron)
 	out := network.NewNNode(2, network.OutputNeuron)
+	modular := cplx >= 6 && cplx%2 == 0
+	n := cplx - 2
+	if modular {
+		n = cplx - 5 // 2 nodes + control node + its two links
+	}
 	var genes []*genetics.Gene
-	for i := 0; i < cplx-2; i++ {
+	for i := 0; i < n; i++ {
 		genes = append(genes, genetics.NewGene(0.5, in, out, false, int64(i+1), 0))
 	}
-	return genetics.NewGenome(1, []*neat.Trait{tr}, []*network.NNode{in, out}, genes)
+	if !modular {
+		return genetics.NewGenome(1, []*neat.Trait{tr}, []*network.NNode{in, out}, genes)
+	}
+	ctrl := network.NewNNode(3, network.HiddenNeuron)
+	ctrl.ActivationType = neatmath.MultiplyModuleActivation
+	ctrl.Incoming = append(ctrl.Incoming, network.NewLink(1.0, in, ctrl, false))
+	ctrl.Outgoing = append(ctrl.Outgoing, network.NewLink(1.0, ctrl, out, false))
+	mod := genetics.NewMIMOGene(ctrl, int64(n+1), 1.0, true)
+	return genetics.NewModularGenome(1, []*neat.Trait{tr}, []*network.NNode{in, out}, genes, []*genetics.MIMOControlGene{mod})
 }
 
 func checkExperiment(sc *statsCase, c *checker) int {
